@@ -442,7 +442,8 @@ var _ = gots.ErrNoPayload
 //@   requires d != nil
 //@   ensures len(data) < 9 ==> result == gots.ErrInvalidSCTE35Length
 //@   ensures len(data) >= 9 && !(data[0] == 0x43 && data[1] == 0x55 && data[2] == 0x45 && data[3] == 0x49) ==> result == gots.ErrSCTE35InvalidDescriptorID
-//@   ensures len(data) >= 9 && result == nil ==> d.eventID == uint32(data[4])<<24|uint32(data[5])<<16|uint32(data[6])<<8|uint32(data[7]) && d.eventCancelIndicator == (data[8] >= 128)
+//@   ensures len(data) >= 9 && result == nil ==> d.eventID == uint32(data[4])<<24|uint32(data[5])<<16|uint32(data[6])<<8|uint32(data[7])
+//@   ensures len(data) >= 9 && result == nil ==> d.eventCancelIndicator == (data[8] >= 128)
 //@   modifies *d, d.components[*], d.mid[*]
 //@   loop 1 (ct uint8, buf *bytes.Buffer)
 //@     invariant d != nil && verifBufOK(buf) && int(ct)*6 <= buf.Len()-5
